@@ -208,7 +208,15 @@ func CheckC03(m *Model, events []sched.Event, cycle int, st *Stats) []run.Violat
 				}
 			}
 			switch {
+			case !healthy && g.evActs["stalegangeviction"] && len(g.evActs) == 1 && !allGone && totalBinds == 0:
+				// a gang that is already below its minimum can only be evicted as a whole: the stale-gang action exists
+				// to remove what is left of it, members that are still being bound included
+				st.Inc("stale_gang_evictions_judged")
+				out = append(out, Viol("C03", "stale-gang-partially-evicted", "", cycle, "pod group %s was below its minimum and the stale-gang eviction removed only part of its active pods: %s", n, desc()))
 			case !healthy:
+				if g.evActs["stalegangeviction"] && allGone {
+					st.Inc("stale_gang_evictions_judged")
+				}
 				st.Inc("evictions_from_already_partial_gang") // precondition of the clause not met; not judged
 			case allGone:
 				st.Inc("whole_gang_evictions")
